@@ -32,7 +32,8 @@ ASSUMPTIONS = [
 ]
 
 TOP = scen.TOP
-FILES = {'f0': b'zero', 'd/f1': b'one', 'd/e/f2': b'two!', 'g/f3': b'', 'g/f4': b'four'}
+# (non-ASCII names: the uncompressed size is a number of BYTES, not of characters)
+FILES = {'f0': b'zero', 'd/f1': b'one', 'd/e/f2': b'two!', 'd/e/z\u00fcrich-\u00e9t\u00e9': b'utf8', 'g/f3': b'', 'g/f\u0444': b'four'}
 H1 = ('SHA1',)
 SUBDIRS = ['d', 'd/e', 'g']
 
@@ -45,14 +46,28 @@ def layout(assign, extra_lines=0):
         MSpec(TOP, [('F', 'DATA', 'f0', H1), ('M', md, H1), ('M', mg, H1),
                     ('L', 'DIST top.tar 5 SHA1 ' + 'a' * 40)]),
         MSpec(md, [('F', 'DATA', 'd/f1', H1), ('M', me, H1), ('L', 'DIST sub.tar 6 SHA1 ' + 'b' * 40)]),
-        MSpec(me, [('F', 'DATA', 'd/e/f2', H1)] + pad),
-        MSpec(mg, [('F', 'DATA', 'g/f3', H1), ('F', 'DATA', 'g/f4', H1)]),
+        MSpec(me, [('F', 'DATA', 'd/e/f2', H1), ('F', 'DATA', 'd/e/z\u00fcrich-\u00e9t\u00e9', H1)] + pad),
+        MSpec(mg, [('F', 'DATA', 'g/f3', H1), ('F', 'DATA', 'g/f\u0444', H1)]),
     ]
 
 
-def build(assign, extra_lines=0):
+def layout_chain(assign, extra_lines=0):
+    """Same-directory chain: Manifest -> Manifest.files -> {d/Manifest -> d/e/Manifest, g/Manifest};
+    assign[0] is the compression of Manifest.files here (a sub-Manifest next to the top-level one)."""
+    cf, ce, cg = assign
+    mf, md, me, mg = mname('', cf, 'Manifest.files'), mname('d', None), mname('d/e', ce), mname('g', cg)
+    return [
+        MSpec(TOP, [('M', mf, H1), ('L', 'DIST top.tar 5 SHA1 ' + 'a' * 40)]),
+        MSpec(mf, [('F', 'DATA', 'f0', H1), ('M', md, H1), ('M', mg, H1)]),
+        MSpec(md, [('F', 'DATA', 'd/f1', H1), ('M', me, H1), ('L', 'DIST sub.tar 6 SHA1 ' + 'b' * 40)]),
+        MSpec(me, [('F', 'DATA', 'd/e/f2', H1), ('F', 'DATA', 'd/e/z\u00fcrich-\u00e9t\u00e9', H1)]),
+        MSpec(mg, [('F', 'DATA', 'g/f3', H1), ('F', 'DATA', 'g/f\u0444', H1)]),
+    ]
+
+
+def build(assign, extra_lines=0, chain=False):
     t = Tree(FILES)
-    render_layout(t, layout(assign, extra_lines))
+    render_layout(t, layout_chain(assign, extra_lines) if chain else layout(assign, extra_lines))
     return t
 
 
@@ -63,7 +78,7 @@ def mutate(t, mut):
     if mut == 'alter':
         t.files['d/f1'] = b'ONE'
     elif mut == 'delete':
-        del t.files['g/f4']
+        del t.files['g/f\u0444']
     elif mut == 'stray':
         t.files['d/e/stray'] = b's'
     elif mut == 'alter_deep':
@@ -182,7 +197,7 @@ def do_save(root, step, holder=None):
 
 
 def check_W(case, scratch, stats=None):
-    t = build(tuple(case['start']), case.get('pad', 0))
+    t = build(tuple(case['start']), case.get('pad', 0), bool(case.get('chain')))
     root = fresh_root(scratch)
     t.write(root)
     out = []
@@ -283,8 +298,8 @@ def replay(case, scratch):
 STARTS = [(None, None, None), ('gz', 'gz', 'gz'), ('bz2', None, 'xz'), (None, 'lzma', None), ('xz', 'gz', None)]
 
 
-def sizes_for(start, pad=0):
-    t = build(start, pad)
+def sizes_for(start, pad=0, chain=False):
+    t = build(start, pad, chain)
     out = set()
     for p, data in t.files.items():
         if os.path.basename(p).startswith('Manifest') and p != TOP:
@@ -330,8 +345,8 @@ def run_shard(spec, tier, seed, scratch):
     if spec[0] == 'W1':
         _w, si, fmt = spec
         start = STARTS[si]
-        for pad in (0, 2):
-            sizes = sizes_for(start, pad)
+        for pad, chain in ((0, False), (2, False), (0, True)):
+            sizes = sizes_for(start, pad, chain)
             wms = sorted({0, sizes[-1] + 1} | {s + d for s in sizes for d in (-1, 0, 1)})
             for wm, force, edit in itertools.product(wms, (True, False), (None, 'd/e/f2', 'g/f3')):
                 if not force and edit is None:
@@ -339,10 +354,10 @@ def run_shard(spec, tier, seed, scratch):
                 step = dict(edit=edit, force=force, wm=wm, fmt=fmt)
                 # after an edit that appends one byte the sizes stay the same (hash lengths fixed), so the
                 # boundary watermarks computed above remain exact
-                case = {'part': 'W', 'start': start, 'pad': pad, 'steps': [step]}
+                case = {'part': 'W', 'start': start, 'pad': pad, 'chain': chain, 'steps': [step]}
                 n0 = stats.counters['W_saves_rewriting']
                 vs = check_W(case, scratch, stats)
-                stats.case(('W1', start, pad, wm, force, edit, fmt), nontrivial=stats.counters['W_saves_rewriting'] > n0)
+                stats.case(('W1', start, pad, chain, wm, force, edit, fmt), nontrivial=stats.counters['W_saves_rewriting'] > n0)
                 if len(stats.samples) < 1 and wm in sizes:
                     stats.sample({'part': 'W', 'start': start, 'sizes': sizes, 'step': step})
                 for x in vs:
@@ -355,11 +370,11 @@ def run_shard(spec, tier, seed, scratch):
     for n in range(1, depth):
         for rest in itertools.product(range(len(alpha)), repeat=n):
             steps = [alpha[first]] + [alpha[i] for i in rest]
-            for reuse in (False, True):
-                case = {'part': 'W', 'start': start, 'steps': steps, 'reuse_loader': reuse}
+            for reuse, chain in ((False, False), (True, False), (False, True)):
+                case = {'part': 'W', 'start': start, 'steps': steps, 'reuse_loader': reuse, 'chain': chain}
                 n0 = stats.counters['W_saves_rewriting']
                 vs = check_W(case, scratch, stats)
-                stats.case(('Wseq', start, first, reuse) + rest, nontrivial=stats.counters['W_saves_rewriting'] > n0)
+                stats.case(('Wseq', start, first, reuse, chain) + rest, nontrivial=stats.counters['W_saves_rewriting'] > n0)
                 for x in vs:
                     stats.violation(x['sig'], x['case'], x['message'])
     return stats
